@@ -86,7 +86,8 @@ def cross_section(rng):
     mode = rng.randint(0, 3)
     secs = [g.gen_general(rng, mode, 0), g.gen_editor(rng, 0), g.gen_metadata(rng, 0), g.gen_difficulty(rng, 0), g.gen_events(rng, 0, 20000),
             g.gen_timing(rng, mode, 0, 20000, True), g.gen_colours(rng, 0), g.gen_objects(rng, mode, 0, True)]
-    target = rng.choice(secs)[0]
+    # the three sections every provided decoder ignores take part as targets: nothing delivered there may have an effect
+    target = rng.choice([s[0] for s in secs] + ["[Variables]", "[CatchTheBeat]", "[Mania]"])
     body = []
     for s in secs:
         name = s[0].strip("[]")
